@@ -71,13 +71,13 @@ def handle (cmd : String) (args : List String) : Option String :=
   | "trace", ["dep", sp] => some (match parseSpans sp with
     | some sp =>
       if sp.any (·.noEntry) then "bad-op" else
-      let g := depGraph sp
+      let g := depGraphOf sp
       if g.isEmpty then "-" else " ".intercalate (g.map (fun ((a, b), n) => s!"{a}>{b}={n}"))
     | none => "bad-op")
   | "trace", ["red", sp] => some (match parseSpans sp with
     | some sp =>
       if sp.any (·.noEntry) then "bad-op" else
-      let rows := red sp
+      let rows := redOfSpans sp
       if rows.isEmpty then "-" else " ".intercalate (rows.map (fun r =>
         s!"{r.service}={showF (some r.rate)}/{showF (some r.errRate)}/{showF r.p50}/{showF r.p90}/{showF r.p95}/{showF r.p99}"))
     | none => "bad-op")
